@@ -506,3 +506,204 @@ Proof.
   - split; [|reflexivity]. intros _. split; [exact E1|]. split; [apply E2; reflexivity | apply Z.leb_le; exact E3].
   - split; [discriminate|]. intros [_ [_ H]]. apply Z.leb_le in H. congruence.
 Qed.
+
+(* ------------------------------------------------------------------ the inner search always terminates:
+   with lkh_fuel the model never reports Fuel (choose_x recursion adds a new tour edge to `broken` at every level) *)
+Lemma mk_edge_sym a b : mk_edge a b = mk_edge b a.
+Proof.
+  unfold mk_edge. destruct (a <? b) eqn:E1, (b <? a) eqn:E2; try reflexivity.
+  - apply Nat.ltb_lt in E1. apply Nat.ltb_lt in E2. lia.
+  - apply Nat.ltb_ge in E1. apply Nat.ltb_ge in E2. assert (a = b) by lia. subst. reflexivity.
+Qed.
+
+Lemma windows2_nth : forall p j, S j < length p -> In (nth j p 0, nth (S j) p 0) (windows2 p).
+Proof.
+  induction p as [|a [|b r] IH]; intros j Hj; cbn [length] in Hj; try lia.
+  destruct j as [|j].
+  - left. reflexivity.
+  - right. apply (IH j). cbn [length]. lia.
+Qed.
+
+Lemma last_nth' : forall (p : list nat) d, p <> [] -> last p d = nth (length p - 1) p d.
+Proof.
+  induction p as [|a [|b r] IH]; intros d H; [congruence | reflexivity |].
+  change (last (a :: b :: r) d) with (last (b :: r) d). rewrite IH by discriminate.
+  cbn [length]. replace (S (S (length r)) - 1) with (S (length r)) by lia.
+  replace (S (length r) - 1) with (length r) by lia. reflexivity.
+Qed.
+
+Lemma index_of_nth x : forall p i, index_of x p = Some i -> nth i p 0 = x.
+Proof.
+  induction p as [|y r IH]; intros i H; cbn [index_of] in H; [discriminate|].
+  destruct (y =? x) eqn:E; [inversion H; subst; apply Nat.eqb_eq in E; exact E|].
+  destruct (index_of x r) as [j|]; [|discriminate]. inversion H; subst. cbn [nth]. apply IH. reflexivity.
+Qed.
+
+Lemma tour_edge_consecutive p j : S j < length p -> In (mk_edge (nth j p 0) (nth (S j) p 0)) (tedges (tour_new p)).
+Proof.
+  intros Hj. cbn [tour_new tedges]. apply eset_of_In. apply in_map_iff.
+  exists (nth j p 0, nth (S j) p 0). split; [reflexivity|]. apply in_or_app. left. apply windows2_nth. exact Hj.
+Qed.
+
+Lemma tour_edge_closing p : p <> [] -> In (mk_edge (nth (length p - 1) p 0) (nth 0 p 0)) (tedges (tour_new p)).
+Proof.
+  intros Hp. cbn [tour_new tedges]. apply eset_of_In. apply in_map_iff.
+  exists (nth (length p - 1) p 0, nth 0 p 0). split; [reflexivity|]. apply in_or_app. right.
+  destruct p as [|a r]; [congruence|]. cbn [closing]. left. rewrite (last_nth' (a :: r) a) by discriminate.
+  f_equal; try reflexivity. apply nth_indep. cbn [length]. lia.
+Qed.
+
+Lemma around_edge p last x : In x (around (tour_new p) last) -> In (mk_edge last x) (tedges (tour_new p)).
+Proof.
+  unfold around. cbn [tour_new tpath]. destruct (index_of last p) as [i|] eqn:E; [|intros []].
+  pose proof (index_of_lt _ _ _ E) as Hlt. pose proof (index_of_nth _ _ _ E) as Hn.
+  assert (Hp : p <> []) by (destruct p; [cbn in Hlt; lia | discriminate]).
+  intros [<- | [<- | []]].
+  - (* predecessor *)
+    destruct (i =? 0) eqn:E0.
+    + apply Nat.eqb_eq in E0. subst i. rewrite <- Hn, mk_edge_sym. apply tour_edge_closing. exact Hp.
+    + apply Nat.eqb_neq in E0. rewrite <- Hn, mk_edge_sym.
+      replace i with (S (i - 1)) at 2 by lia. apply tour_edge_consecutive. lia.
+  - (* successor *)
+    destruct (Nat.eq_dec (S i) (length p)) as [Hl | Hl].
+    + replace ((i + 1) mod length p) with 0 by (replace (i + 1) with (length p) by lia; rewrite Nat.mod_same; lia).
+      rewrite <- Hn. replace i with (length p - 1) by lia. apply tour_edge_closing. exact Hp.
+    + rewrite Nat.mod_small by lia. rewrite <- Hn. replace (i + 1) with (S i) by lia.
+      apply tour_edge_consecutive. lia.
+Qed.
+
+Lemma eins_new_NoDup e s : ~ In e s -> NoDup s -> NoDup (eins e s) /\ length (eins e s) = S (length s).
+Proof.
+  induction s as [|x r IH]; intros Hn ND; cbn [eins].
+  - split; [constructor; [intros [] | constructor] | reflexivity].
+  - destruct (edge_eqb e x) eqn:E1; [apply edge_eqb_eq in E1; subst; exfalso; apply Hn; left; reflexivity|].
+    destruct (edge_ltb e x).
+    + split; [constructor; assumption | reflexivity].
+    + inversion ND; subst. destruct IH as [A B]; [intros H; apply Hn; right; exact H | assumption|].
+      split; [|cbn [length]; rewrite B; reflexivity].
+      constructor; [|exact A]. intros H. apply -> eins_In in H. destruct H as [H | H]; [|auto].
+      subst. apply Hn. left. reflexivity.
+Qed.
+
+Lemma eins_length_le e s : length (eins e s) <= S (length s).
+Proof.
+  induction s as [|x r IH]; cbn [eins]; [cbn; lia|].
+  destruct (edge_eqb e x); [cbn; lia|]. destruct (edge_ltb e x); cbn [length]; lia.
+Qed.
+
+Lemma tour_edges_count p : length (tedges (tour_new p)) <= length p.
+Proof.
+  cbn [tour_new tedges]. unfold eset_of.
+  assert (G : forall (l : list edge) s, length (fold_left (fun s e => eins e s) l s) <= length l + length s).
+  { induction l as [|e l IH]; intros s; cbn [fold_left length]; [lia|].
+    specialize (IH (eins e s)). pose proof (eins_length_le e s). lia. }
+  eapply Nat.le_trans; [apply G|]. rewrite map_length, app_length. cbn [length].
+  assert (W : forall q, length (windows2 q) = length q - 1).
+  { induction q as [|a [|b r] IHq]; [reflexivity | reflexivity |].
+    change (windows2 (a :: b :: r)) with ((a, b) :: windows2 (b :: r)). cbn [length] in *. rewrite IHq. lia. }
+  rewrite W. destruct p as [|a r]; cbn [closing length]; lia.
+Qed.
+
+Section NoFuel.
+  Variable cm : list (list Z).
+  Variable nb : list (list nat).
+  Variable ho : list entry -> option (list entry).
+  Variable p : list nat.
+  Let t := tour_new p.
+
+  Definition sub_tour (b : eset) : Prop := NoDup b /\ incl b (tedges t).
+
+  Lemma first_found_nofuel f l : (forall e, f e <> Fuel) -> first_found f l <> Fuel.
+  Proof.
+    intros H. induction l as [|x r IH]; cbn [first_found]; [discriminate|].
+    destruct (f x) eqn:E; try discriminate; [exact IH | exfalso; exact (H x E)].
+  Qed.
+
+  Definition rec_nofuel (rec : nat -> nat -> Z -> eset -> eset -> res) (k : nat) : Prop :=
+    forall t1 last g b j, sub_tour b -> k <= length b -> rec t1 last g b j <> Fuel.
+
+  Lemma cx_loop_nofuel rec t1 last gain broken joined :
+    sub_tour broken -> rec_nofuel rec (S (length broken)) ->
+    forall cands, (forall c, In c cands -> In c (around t last)) ->
+    cx_loop cm nb ho t rec t1 last gain broken joined cands <> Fuel.
+  Proof.
+    intros [ND Hsub] Hrec. induction cands as [|t2i rest IH]; intros Hc; cbn [cx_loop]; [discriminate|].
+    destruct (emem (mk_edge last t2i) joined || emem (mk_edge last t2i) broken) eqn:Em; [discriminate|].
+    apply orb_false_iff in Em. destruct Em as [_ Em].
+    assert (Hnew : ~ In (mk_edge last t2i) broken) by (rewrite <- emem_In; congruence).
+    destruct (eins_new_NoDup _ _ Hnew ND) as [ND' Hlen].
+    assert (Hsub' : sub_tour (eins (mk_edge last t2i) broken)).
+    { split; [exact ND'|]. intros e He. apply -> eins_In in He. destruct He as [-> | He]; [|auto].
+      apply around_edge. apply Hc. left. reflexivity. }
+    assert (Hy : forall g j, choose_y cm nb ho t rec t1 t2i g (eins (mk_edge last t2i) broken) j <> Fuel).
+    { intros g j. unfold choose_y. destruct (find_closest cm nb ho t t2i g _ j); [|discriminate].
+      apply first_found_nofuel. intros e. apply Hrec; [exact Hsub' | lia]. }
+    destruct (gain + cost cm last t2i - cost cm t2i t1 >? 0)%Z; [|apply Hy].
+    destruct (try_path t _ _) as [q|].
+    - destruct (list_eqb q (tpath t)); discriminate.
+    - destruct (2 <? length (eins (mk_edge t2i t1) joined)); [|apply Hy].
+      apply IH. intros c Hc'. apply Hc. right. exact Hc'.
+  Qed.
+
+  Lemma cx_cands_around last broken c : In c (cx_cands cm t last broken) -> In c (around t last).
+  Proof.
+    unfold cx_cands. destruct (length broken =? 4); [|auto].
+    destruct (around t last) as [|a [|b [|? ?]]]; intros H; try destruct H.
+    destruct (cost cm a last >? cost cm b last)%Z; destruct H as [<- | []]; cbn; auto.
+  Qed.
+
+  Lemma choose_x_nofuel : forall fuel t1 last g b j,
+    sub_tour b -> length (tedges t) < fuel + length b -> choose_x cm nb ho t fuel t1 last g b j <> Fuel.
+  Proof.
+    induction fuel as [|f IH]; intros t1 last g b j Hb Hlt.
+    - exfalso. destruct Hb as [ND Hsub]. pose proof (NoDup_incl_length ND Hsub). lia.
+    - cbn [choose_x]. apply cx_loop_nofuel; [exact Hb | | intros c Hc; eapply cx_cands_around; eauto].
+      intros t1' last' g' b' j' Hb' Hlen. apply IH; [exact Hb' | lia].
+  Qed.
+
+  Lemma t3_loop_nofuel fuel t1 t2 aset broken :
+    sub_tour broken -> length (tedges t) < fuel + length broken ->
+    forall l tries, t3_loop cm nb ho t fuel t1 t2 aset broken tries l <> Fuel.
+  Proof.
+    intros Hb Hlt. induction l as [|e r IH]; intros tries; cbn [t3_loop]; [discriminate|].
+    destruct (nmem (fst e) aset); [apply IH|].
+    destruct (choose_x cm nb ho t fuel t1 (fst e) (snd (snd e)) broken [mk_edge t2 (fst e)]) eqn:Ex; try discriminate.
+    - destruct tries as [|[|k]]; try discriminate. apply IH.
+    - exfalso. revert Ex. apply choose_x_nofuel; assumption.
+  Qed.
+
+  Lemma t2_loop_nofuel fuel t1 aset : length (tedges t) < fuel + 1 ->
+    forall l, (forall x, In x l -> In x (around t t1)) -> t2_loop cm nb ho t fuel t1 aset l <> Fuel.
+  Proof.
+    intros Hlt. induction l as [|t2 r IH]; intros Hl; cbn [t2_loop]; [discriminate|].
+    destruct (find_closest cm nb ho t t2 (cost cm t1 t2) [mk_edge t1 t2] []) as [closest|]; [|discriminate].
+    destruct (t3_loop cm nb ho t fuel t1 t2 aset [mk_edge t1 t2] 5 closest) eqn:E3; try discriminate.
+    - apply IH. intros x Hx. apply Hl. right. exact Hx.
+    - exfalso. revert E3. apply t3_loop_nofuel; [|cbn [length]; lia].
+      split; [constructor; [intros [] | constructor]|].
+      intros e [<- | []]. apply around_edge. apply Hl. left. reflexivity.
+  Qed.
+
+  Lemma t1_loop_nofuel fuel : length (tedges t) < fuel + 1 -> forall l, t1_loop cm nb ho t fuel l <> Fuel.
+  Proof.
+    intros Hlt. induction l as [|t1 r IH]; cbn [t1_loop]; [discriminate|].
+    destruct (t2_loop cm nb ho t fuel t1 (nset_of (around t t1)) (nset_of (around t t1))) eqn:E2; try discriminate.
+    - exact IH.
+    - exfalso. revert E2. apply t2_loop_nofuel; [exact Hlt|].
+      intros x Hx. generalize (around t t1) x Hx. clear. intros l y Hy.
+      unfold nset_of in Hy.
+      assert (G : forall l s, In y (fold_left (fun s x => nins x s) l s) -> In y l \/ In y s).
+      { induction l0 as [|x l0 IH]; intros s H; cbn [fold_left] in H; [auto|].
+        destruct (IH _ H) as [H' | H']; [left; right; exact H'|].
+        assert (N : forall s, In y (nins x s) -> y = x \/ In y s).
+        { induction s0 as [|z r0 IHs]; cbn [nins]; [intros [<- | []]; auto|].
+          destruct (x =? z); [auto|]. destruct (x <? z); cbn [In]; intros [A | A]; auto. destruct (IHs A); auto. }
+        apply N in H'. destruct H' as [-> | H']; cbn; auto. }
+      destruct (G l [] Hy) as [H' | []]. exact H'.
+  Qed.
+
+  Theorem improve_nofuel : improve cm nb ho p <> Fuel.
+  Proof.
+    unfold improve. apply t1_loop_nofuel. pose proof (tour_edges_count p). unfold lkh_fuel. fold t in H. lia.
+  Qed.
+End NoFuel.
